@@ -65,6 +65,23 @@ pub fn strings(width: usize) -> Vec<(String, String)> {
         out.push((format!("far-too-long katakana x{n}"), "\u{30a2}".repeat(n)));
         out.push((format!("far-too-long mixed x{n}"), "\u{30a2}\u{11b}y".repeat(n / 3 + 1)));
     }
+    // ... with 1..3 single bytes in front, so that every byte offset (1020, 4096, 65536 ...) falls inside a character for one of them
+    for lead in 1..=3usize {
+        for n in [509usize, 510, 511, 680, 2047, 2048, 32767, 32768] {
+            out.push((format!("far-too-long lead{lead} e-caron x{n}"), format!("{}{}", "a".repeat(lead), "\u{11b}".repeat(n))));
+            out.push((format!("far-too-long lead{lead} katakana x{n}"), format!("{}{}", "a".repeat(lead), "\u{30a2}".repeat(n))));
+            out.push((format!("far-too-long lead{lead} astral x{n}"), format!("{}{}", "a".repeat(lead), "\u{1f600}".repeat(n))));
+        }
+    }
+    // every ASCII character (the control characters among them) as the LAST character of the text, at lengths either side
+    // of a machine word: whatever looks for the terminating NUL must not be impressed by the byte in front of it
+    for b in 1u8..=0x7f {
+        if b == b'^' { continue; }
+        for k in [0usize, 2, 6, 7, 8] {
+            if k + 1 >= width && width > 1 { continue; }
+            out.push((format!("ends-with {b:#04x} after {k}"), format!("{}{}", "p".repeat(k), b as char)));
+        }
+    }
     // white space and control characters are ordinary text: nothing may trim or normalise them
     for t in [" ", "  ", " a", "a ", " a ", "a  b", "\t", "a\tb", "a\u{7f}", "\u{1}x", "x\r\n", "~{}[]"] {
         out.push((format!("ascii-odd {t:?}"), t.to_string()));
